@@ -17,6 +17,8 @@
                                       token in `chTask` (both variants)
     5. `switch_noticed`               at the top of the loop a switch is noticed before anything is popped
     6. `waits_for_connect`            after noticing, nothing is started until Connect returns on the new client
+       `starts_next`                  … and once it has returned, at most six steps of the goroutine start the oldest
+                                      waiting request on the current client (noticing a switch never strands the queue)
     7. `task_client_read_with_pop`    tie to the source (regenerated fact): the model's `top` step looks at the switch
                                       channel, pops the task and reads the client in ONE step; in retryclient.go the
                                       client handed to `task(ctx, cli)` is not read after the lock was released
@@ -118,6 +120,83 @@ theorem waits_for_connect (s : S) (hw : s.pc = .waitRead ∨ s.pc = .waitSel s.g
 /-- the hypotheses of `waits_for_connect` are met right after a noticed switch -/
 example : let s := run .fixed staleWitness
     (s.pc = .waitRead ∨ s.pc = .waitSel s.gen) ∧ s.gen ∉ s.returned := by decide
+
+/-! ### 6b. … and once Connect has returned on the current client, the next waiting request IS started -/
+
+/-- the goroutine's own steps, always taking the first ready case of a select -/
+def steps (v : Variant) : Nat → S → S
+  | 0, s => s
+  | n + 1, s => steps v n (loopStep v s false)
+
+theorem steps_add (v : Variant) (a b : Nat) (s : S) : steps v (a + b) s = steps v b (steps v a s) := by
+  induction a generalizing s with
+  | zero => simp [steps]
+  | succ n ih => rw [Nat.succ_add]; simp [steps, ih]
+
+/-- what "request `t` has been started on the current client, after Connect" means for the state reached -/
+def Started (s s' : S) (t : Nat) : Prop :=
+  s'.pc = .run t s.gen ∧ s'.log = s.log ++ [(t, s.gen, true)] ∧ s'.gen = s.gen
+
+theorem start_from_top (s : S) (t : Nat) (q : List Nat) (h0 : s.gen ≠ 0) (hret : s.gen ∈ s.returned)
+    (hq : s.queue = t :: q) (hpc : s.pc = .top) (hs : s.gen = s.seen) : Started s (steps .fixed 1 s) t := by
+  simp [steps, loopStep, h0, hpc, hs.symm, hq, Started, hret]
+
+theorem start_from_waitRead (s : S) (t : Nat) (q : List Nat) (h0 : s.gen ≠ 0) (hret : s.gen ∈ s.returned)
+    (hq : s.queue = t :: q) (hpc : s.pc = .waitRead) : Started s (steps .fixed 3 s) t := by
+  simp [steps, loopStep, h0, hpc, hq, Started, hret]
+
+theorem start_from_top_any (s : S) (t : Nat) (q : List Nat) (h0 : s.gen ≠ 0) (hret : s.gen ∈ s.returned)
+    (hq : s.queue = t :: q) (hpc : s.pc = .top) : ∃ n ≤ 4, Started s (steps .fixed n s) t := by
+  by_cases hs : s.gen = s.seen
+  · exact ⟨1, by omega, start_from_top s t q h0 hret hq hpc hs⟩
+  · refine ⟨4, by omega, ?_⟩
+    have h1 : steps .fixed 1 s = { s with pc := .waitRead } := by simp [steps, loopStep, h0, hpc, hs]
+    have := start_from_waitRead { s with pc := .waitRead } t q h0 hret hq rfl
+    rw [show (4 : Nat) = 1 + 3 from rfl, steps_add, h1]
+    exact this
+
+/-- Whenever `RetryClient.Connect` has returned on the current client, a request is waiting, no request is running and the
+    goroutine is not asleep without a token (`no_lost_wakeup`), at most six of its own steps start the oldest waiting request
+    on the current client: noticing a switch never strands the queue. -/
+theorem starts_next (s : S) (t : Nat) (q : List Nat) (h0 : s.gen ≠ 0) (hret : s.gen ∈ s.returned)
+    (hq : s.queue = t :: q) (hrun : ∀ t g, s.pc ≠ .run t g) (hidle : s.pc = .idle → s.token = true)
+    (hsel : ∀ g, s.pc = .waitSel g → g = s.seen) :
+    ∃ n ≤ 6, Started s (steps .fixed n s) t := by
+  cases hpc : s.pc with
+  | run t' g => exact absurd hpc (hrun t' g)
+  | top =>
+      obtain ⟨n, hn, h⟩ := start_from_top_any s t q h0 hret hq hpc
+      exact ⟨n, by omega, h⟩
+  | waitRead => exact ⟨3, by omega, start_from_waitRead s t q h0 hret hq hpc⟩
+  | idle =>
+      have htok := hidle hpc
+      have h1 : steps .fixed 1 s = { s with token := false, pc := .top } := by
+        simp [steps, loopStep, h0, hpc, htok]
+      obtain ⟨n, hn, h⟩ := start_from_top_any { s with token := false, pc := .top } t q h0 hret hq rfl
+      refine ⟨1 + n, by omega, ?_⟩
+      rw [steps_add, h1]
+      exact h
+  | waitSel g =>
+      have hg := hsel g hpc
+      by_cases hok : g ∈ s.returned
+      · have h1 : steps .fixed 1 s = { s with pc := .top } := by
+          simp [steps, loopStep, h0, hpc, hok]
+        obtain ⟨n, hn, h⟩ := start_from_top_any { s with pc := .top } t q h0 hret hq rfl
+        refine ⟨1 + n, by omega, ?_⟩
+        rw [steps_add, h1]
+        exact h
+      · have hsw : s.gen ≠ g := by
+          intro e; exact hok (e ▸ hret)
+        have h1 : steps .fixed 1 s = { s with pc := .waitRead } := by
+          simp [steps, loopStep, h0, hpc, hok, hsw]
+        have := start_from_waitRead { s with pc := .waitRead } t q h0 hret hq rfl
+        refine ⟨1 + 3, by omega, ?_⟩
+        rw [steps_add, h1]
+        exact this
+
+/-- the hypotheses are met on the D21 schedule once Connect has returned on client 2 -/
+example : let s := run .fixed (staleWitness ++ [.loop false, .connectReturn 2])
+    s.gen ≠ 0 ∧ s.gen ∈ s.returned ∧ s.queue = [1] ∧ s.pc = .waitSel 2 ∧ s.seen = 2 := by decide
 
 /-! ### 7. tie to the source -/
 
